@@ -410,6 +410,27 @@ def work_strict(task):
             ok, msg, values = match_layout(out, dev)
             if not ok:
                 res.violation("C12|Xstrict|layout-mismatch", msg, case)
+    # the template with ONE hard-coded argument changed (squeezing phase 0.0 -> 0.3): must be refused
+    for k in range(len(sq_names)):
+        res.n += 1
+        vals = {x: 1 for x in sq_names}
+        vals.update({x: 0.3 for x in ph_names})
+        prog = sf.io.to_program(blackbird.loads(dev.layout)(**vals))
+        seen = -1
+        for cmd in prog.circuit:
+            if isinstance(cmd.op, ops.S2gate):
+                seen += 1
+                if seen == k:
+                    cmd.op = ops.S2gate(cmd.op.p[0], 0.3)
+        case = {"strict": True, "H": H, "dev": devkw, "sq": f"phase-of-squeezer-{k}", "phase": 0.3}
+        try:
+            with warnings.catch_warnings():
+                warnings.simplefilter("ignore")
+                prog.compile(device=dev, compiler="Xstrict")
+        except (CircuitError, ValueError):
+            res.nt += 1
+            continue
+        res.violation("C12|Xstrict|fixed-parameter-ignored", f"Xstrict accepted the template with S2gate number {k} given phase 0.3 although the layout hard-codes 0.0", case)
     return res
 
 
